@@ -35,3 +35,68 @@ package tagstree
 //@   site call os.OpenFile #1:
 //@     assert [opened-only-for-a-validated-key] uf("safeName", bool, tagKey) && (arg1 & (os.O_WRONLY | os.O_RDWR | os.O_CREATE | os.O_TRUNC)) == 0
 //@ end
+
+// C18 (arbitrary bytes fed to an on-disk decoder never crash the server): the
+// tags-tree file carries no checksum, so its decoders must be panic-free for
+// EVERY content of the file: `safe`, with no precondition on the bytes read.
+// The only precondition is the shape initTagsTreeReader itself builds (the
+// metadata table is a whole number of 16-byte entries; the file is open).
+// readTagTreeChunk additionally never allocates more than the file holds.
+//@ func hasBytes
+//@   props C18
+//@   pure
+//@   safe
+//@   ensures result == (uint64(off) + uint64(n) <= uint64(len(buf)))
+//@ end
+//@ func (*TagTreeReader).readTagTreeChunk
+//@   props C18
+//@   requires ttr != nil && ttr.fd != nil
+//@   safe
+//@   ensures [a-chunk-is-exactly-the-requested-window] implies(result1 == nil, len(result0) == int(endOff - startOff) && endOff >= startOff)
+//@   site call make #1:
+//@     assert [never-allocates-more-than-the-file-holds] endOff >= startOff && int64(endOff) <= fileInfo.Size()
+//@ end
+//@ func (*TagTreeReader).getOrInsertMatchingTSIDs
+//@   props C18
+//@   requires ttr != nil && ttr.fd != nil && len(ttr.metadataBuf) % 16 == 0
+//@   safe
+//@   loop 1:
+//@     invariant id % 16 == 0 && id <= uint32(len(ttr.metadataBuf))
+//@   loop 2:
+//@     invariant treeOffset <= uint32(len(tagTreeBuf))
+//@   loop 3:
+//@     invariant i <= tsidCount && tsidCount <= 65535 && uint64(treeOffset) + uint64(tsidCount - i) * 8 <= uint64(len(tagTreeBuf))
+//@ end
+//@ func (*TagTreeReader).getValueIteratorForMetric
+//@   props C18
+//@   requires ttr != nil && ttr.fd != nil && len(ttr.metadataBuf) % 16 == 0
+//@   safe
+//@   loop 1:
+//@     invariant id % 16 == 0 && id <= uint32(len(ttr.metadataBuf))
+//@   ensures [iterator-starts-inside-its-buffer] implies(result0 != nil, result0.treeOffset == 0 && len(result0.tagTreeBuf) <= 4294967295)
+//@ end
+//@ func (*TagValueIterator).next
+//@   props C18
+//@   requires tvi != nil && len(tvi.tagTreeBuf) <= 4294967295 && tvi.treeOffset <= uint32(len(tvi.tagTreeBuf))
+//@   safe
+//@   ensures [cursor-stays-inside-the-buffer] tvi.treeOffset <= uint32(len(tvi.tagTreeBuf))
+//@   loop 1:
+//@     invariant tvi.treeOffset <= uint32(len(tvi.tagTreeBuf))
+//@   loop 2:
+//@     invariant i <= tsidCount && tsidCount <= 65535 && len(matchingTSIDs) == int(tsidCount) && uint64(tvi.treeOffset) + uint64(tsidCount - i) * 8 <= uint64(len(tvi.tagTreeBuf))
+//@ end
+//@ func (*TagValueIterator).NextTagValue
+//@   props C18
+//@   requires tvi != nil && len(tvi.tagTreeBuf) <= 4294967295 && tvi.treeOffset <= uint32(len(tvi.tagTreeBuf))
+//@   safe
+//@   ensures [cursor-stays-inside-the-buffer] tvi.treeOffset <= uint32(len(tvi.tagTreeBuf))
+//@   loop 1:
+//@     invariant tvi.treeOffset <= uint32(len(tvi.tagTreeBuf))
+//@ end
+//@ func (*TagTreeReader).getHashedMetricNames
+//@   props C18
+//@   requires ttr != nil && len(ttr.metadataBuf) % 16 == 0
+//@   safe
+//@   loop 1:
+//@     invariant index % 16 == 0 && index >= 0 && index <= len(ttr.metadataBuf)
+//@ end
